@@ -4,8 +4,6 @@ themselves are extracted from the running code into `OpacusLean/Generated/Valida
 on every run of the check. -/
 namespace Opacus.Validate
 
-deriving instance DecidableEq for Except
-
 /-- one row: a single layer (as root) with the given flags, and the verdicts of the real code:
 error classes of `ModuleValidator.validate`, error count of `GradSampleModule.validate` -/
 structure Row where
